@@ -74,6 +74,12 @@ Proof.
 Qed.
 Print Assumptions C17_chunks_partition.
 
+Theorem C17_chunked_inline_consistent : forall size elements chunksize : Z,
+  (1 <= chunksize)%Z -> (0 <= elements)%Z ->
+  chunked_inline size elements chunksize = indexed_inline size (Z.of_nat (length (chunks elements chunksize))).
+Proof. exact s_chunked_inline_consistent. Qed.
+Print Assumptions C17_chunked_inline_consistent.
+
 (* non-vacuity: a concrete configuration (2 workers, a submitter running a 3-task map with a throwing task
    and a fire-and-forget enqueue, a destroyer thread) is well-formed and a concrete interleaving runs to a
    final state in which the invariants can be read off *)
